@@ -1,15 +1,326 @@
-import Blue.Proofs.LazyC
-import Blue.Proofs.Lazy
 import Blue.Proofs.MergingMain
-import Blue.Proofs.PruningMain
-import Blue.Proofs.BoundsMain
+import Blue.Proofs.MergingLink
+import Blue.Proofs.MergingOver
 import Blue.Proofs.ConcatMain
+import Blue.Proofs.ConcatLink
+import Blue.Proofs.BoundsMain
+import Blue.Proofs.BoundsLink
+import Blue.Proofs.PruningMain
+import Blue.Proofs.PruningSubst
+import Blue.Proofs.Lazy
+import Blue.Proofs.LazyC
 import Blue.Proofs.AsIs
-/-! Property C11: the theorems the check builds and audits (spike inventory; the build phase
-    completes the list from DESIGN Appendix C.0). -/
-#print axioms Blue.Cursor.merging_refines
-#print axioms Blue.Cursor.pruning_refines
-#print axioms Blue.Cursor.bounds_refines
-#print axioms Blue.Cursor.lazy_refines
-#print axioms Blue.Cursor.concat_refines
-#print axioms Blue.Cursor.lazy_over
+import Blue.Proofs.SpecOrder
+import Blue.Proofs.SpecBounds
+/-! # Property C11 — merging, concatenating, pruning, bounds and lazy cursors equal their definitions
+
+Property theorems only (the proofs live in `Blue/Proofs/{Merging*,Concat*,Bounds*,Pruning*,Lazy*,
+AsIs,SpecOrder,SpecBounds}.lean`).  The models (`Blue/Model/{Cursor,Heap,Concat,Bounds,Pruning,
+Lazy}.lean`) mirror `sst/src/{merging,concat,bounds,pruning,lazy}_cursor.rs` operation by
+operation over reference child cursors; `Blue/Model/*C.lean` are the same combinators generic in
+the child (`C : Cur E`, as the Rust types are generic in `C: Cursor`).
+
+For each combinator there is
+* a **refinement** theorem: for *every finite program* of `seek_to_first / seek_to_last / seek /
+  next / prev` (type `List (Op E)`, so every interleaving and every reversal at every position)
+  the combinator shows, after each call, what ONE reference cursor over the specified list shows;
+* a **substitution** theorem (`*_subst`): children with the same behaviour give combinators with
+  the same behaviour, and its corollary (`*_over`): the refinement holds over *any* children that
+  behave like tables (SST cursors, lazy cursors, other combinators), not only reference cursors.
+
+`Concat.next`, `Concat.seek`, `Bounds.prev` are the operations after the repairs of D-2, D-18,
+D-19 (`fixes/d2-concat-next.diff`, `fixes/d18-concat-seek.diff`, `fixes/d19-bounds-prev.diff`);
+the operations as they were are `Concat.nextOld`, `Concat.seekOld`, `Bounds.prevOld`
+(`Blue/Model/AsIs.lean`), with the three counterexample theorems at the end.  The correspondence
+harness runs whichever variant the code under test exhibits on the three minimal inputs.
+
+Seek predicates: `seek(k)` is modelled as `Ref.seek pred` with `pred e = (key e ≥ k)`; the theorems
+ask of `pred` only that it switches once from false to true along the list in question, which
+"key ≥ k" does on any key-sorted list. -/
+namespace Blue.Props.C11
+open Blue.Cursor Blue.Cursor.Filtered
+
+/-! ## merging -/
+
+/-- **Merging cursor = one cursor over the sorted union.**
+    HYPOTHESIS (`Family`): the merged list `M` (entries tagged with the child that owns them) is
+    strictly sorted, i.e. the children are sorted and **pairwise distinct in (key, timestamp)**.
+    With the same (key, ts) in two children the cursor still shows a merge of the children — the
+    (key, ts) sequence is that of the sorted union — but *which* child's value is shown for a
+    duplicated (key, ts) can differ between the forward and the backward pass, so there is no single
+    list to be equal to; the harness explores that region in its own stream (`mergedup`), comparing
+    the implementation with the model exactly and with "some merge of the children" as oracle. -/
+theorem merging_refines {E : Type} {lt : E → E → Bool} {M : List (E × Nat)} {k : Nat}
+    (st : StrictTotal lt) (fam : Family lt M k) (cs : List (Ref E))
+    (hcs : (cs.map (·.xs)).Perm ((List.range k).map (childList M)))
+    (ops : List (Op E)) (hops : ∀ pred, Op.seek pred ∈ ops → Mono lt pred) :
+    (Merging.new lt cs).kv = (Ref.mk (M.map (·.1)) 0).kv ∧
+    Merging.run lt (Merging.new lt cs) ops = Ref.run ⟨M.map (·.1), 0⟩ ops :=
+  Blue.Cursor.merging_refines st fam cs hcs ops hops
+
+theorem merging_subst {E : Type} (lt : E → E → Bool) {A : (E → Bool) → Prop} {C D : Cur E}
+    (cs : List C.σ) (ds : List D.σ) (h : cs.map (behA A C) = ds.map (behA A D)) (fwd : Bool) :
+    BehEq A (MergingC.cur C lt) ⟨fwd, cs⟩ (MergingC.cur D lt) ⟨fwd, ds⟩ :=
+  Blue.Cursor.merging_subst lt cs ds h fwd
+
+theorem merging_over {E : Type} (lt : E → E → Bool) (st : StrictTotal lt) {M : List (E × Nat)} {k : Nat}
+    (fam : Family lt M k) {A : (E → Bool) → Prop} (hA : ∀ p, A p → Mono lt p)
+    {C : Cur E} (cs : List C.σ) (rs : List (Ref E))
+    (hkids : (rs.map (·.xs)).Perm ((List.range k).map (childList M)))
+    (hbeh : cs.map (behA A C) = rs.map (behA A (RefCur E))) :
+    BehEq A (MergingC.cur C lt) (MergingC.new C lt cs) (RefCur E) ⟨M.map (·.1), 0⟩ :=
+  Blue.Cursor.merging_over lt st fam hA cs rs hkids hbeh
+
+/-! ## concatenation -/
+
+/-- **Concatenating cursor = one cursor over the concatenation**, for any non-empty vector of
+    children (empty children, tombstones and a key whose versions are split across adjacent
+    children included).  The only hypothesis is on the seek predicates: along the concatenation
+    they switch once (true of "key ≥ k" when the children are in key order). -/
+theorem concat_refines {E : Type} (cs : List (Ref E)) (hne : 0 < cs.length) (ops : List (Op E))
+    (hops : ∀ pred, Op.seek pred ∈ ops → PredMono (cs.map (·.xs)) pred) :
+    Concat.run (Concat.new cs) ops = Ref.run ⟨(cs.map (·.xs)).flatten, 0⟩ ops :=
+  Blue.Cursor.concat_refines cs hne ops hops
+
+theorem concat_subst {E : Type} {A : (E → Bool) → Prop} {C D : Cur E} (cs : List C.σ) (ds : List D.σ)
+    (h : cs.map (behA A C) = ds.map (behA A D)) (position : Nat) :
+    BehEq A (ConcatC.cur C) ⟨cs, position⟩ (ConcatC.cur D) ⟨ds, position⟩ :=
+  Blue.Cursor.concat_subst cs ds h position
+
+theorem concat_over {E : Type} {A : (E → Bool) → Prop} {C : Cur E} (cs : List C.σ) (rs : List (Ref E))
+    (hne : 0 < rs.length) (hA : ∀ pred, A pred → PredMono (rs.map (·.xs)) pred)
+    (hbeh : cs.map (behA A C) = rs.map (behA A (RefCur E))) :
+    BehEq A (ConcatC.cur C) (ConcatC.new C cs) (RefCur E) ⟨(rs.map (·.xs)).flatten, 0⟩ :=
+  Blue.Cursor.concat_over cs rs hne hA hbeh
+
+/-! ## bounds -/
+
+/-- **Bounds cursor = one cursor over the window.**  `BoundsOk cfg xs lo hi` says the four key
+    tests of the bounds cursor cut the child list into below-start `[0, lo)`, in-range `[lo, hi)`,
+    above-end `[hi, n)`; `bounds_hypothesis_of_sorted` shows every key-sorted table and every pair
+    of bounds (all nine kinds, inverted and empty intervals included) satisfies it, and
+    `bounds_window_is_interval` that the window is then exactly the entries whose key lies in the
+    interval.  `BRel` is the simulation relation; `BRel.before 0` is the state `new` leaves. -/
+theorem bounds_refines {E : Type} (cfg : BoundsCfg E) (xs : List E) {lo hi : Nat}
+    (ok : BoundsOk cfg xs lo hi) (n : Nat) (hn : xs.length + 2 ≤ n)
+    (ops : List (Op E)) (b : Bounds E) (pos : Nat) (h : BRel xs lo hi b pos)
+    (hops : ∀ pred, Op.seek pred ∈ ops → MonoAlong xs pred) :
+    Bounds.run cfg n b ops = Ref.run ⟨window xs lo hi, pos⟩ ops :=
+  Blue.Cursor.bounds_refines cfg xs ok n hn ops b pos h hops
+
+theorem bounds_subst {E : Type} (cfg : BoundsCfg E) (n : Nat) {A : (E → Bool) → Prop}
+    (hs : A cfg.geStart) (he : A cfg.geEnd) {C D : Cur E} {c : C.σ} {d : D.σ}
+    (h : BehEq A C c D d) (st : BState) :
+    BehEq A (BoundsC.cur C cfg n) ⟨c, st⟩ (BoundsC.cur D cfg n) ⟨d, st⟩ :=
+  Blue.Cursor.bounds_subst cfg n hs he h st
+
+theorem bounds_over {E : Type} (cfg : BoundsCfg E) (n : Nat) (xs : List E) {lo hi : Nat}
+    (ok : BoundsOk cfg xs lo hi) (hn : xs.length + 2 ≤ n)
+    {A : (E → Bool) → Prop} (hA : ∀ pred, A pred → MonoAlong xs pred)
+    (hs : A cfg.geStart) (he : A cfg.geEnd)
+    {C : Cur E} {c : C.σ} {q : Nat} (hc : BehEq A C c (RefCur E) ⟨xs, q⟩)
+    (st : BState) (pos : Nat) (hrel : BRel xs lo hi ⟨⟨xs, q⟩, st⟩ pos) :
+    BehEq A (BoundsC.cur C cfg n) ⟨c, st⟩ (RefCur E) ⟨window xs lo hi, pos⟩ :=
+  Blue.Cursor.bounds_over cfg n xs ok hn hA hs he hc st pos hrel
+
+/-- the hypothesis of `bounds_refines` holds for every table whose keys never decrease, and every
+    pair of bounds -/
+theorem bounds_hypothesis_of_sorted {K : Type} [DecidableEq K] {klt : K → K → Bool} (st : StrictTotal klt)
+    (sb eb : Blue.Spec.Bound K) (xs : List (Blue.Spec.Ver K)) (hm : Blue.Spec.KeysMono klt xs) :
+    BoundsOk (Blue.Spec.bcfg klt sb eb) xs
+      (xs.findIdx (fun e => !(Blue.Spec.bcfg klt sb eb).belowStart e))
+      (xs.findIdx (Blue.Spec.bcfg klt sb eb).aboveEnd) :=
+  Blue.Spec.boundsOk_of_keysMono st sb eb xs hm
+
+/-- and the window is "the underlying table restricted to the interval" -/
+theorem bounds_window_is_interval {K : Type} [DecidableEq K] {klt : K → K → Bool} (st : StrictTotal klt)
+    (sb eb : Blue.Spec.Bound K) (xs : List (Blue.Spec.Ver K)) (hm : Blue.Spec.KeysMono klt xs) :
+    window xs (xs.findIdx (fun e => !(Blue.Spec.bcfg klt sb eb).belowStart e))
+        (xs.findIdx (Blue.Spec.bcfg klt sb eb).aboveEnd)
+      = xs.filter (Blue.Spec.inRange klt sb eb) :=
+  Blue.Spec.window_eq_range st sb eb xs hm
+
+/-! ## pruning -/
+
+/-- **Pruning cursor = one cursor over the pruned list**, and it never takes its
+    `logic_error_prev_not_positioned` exit (`Pruning.run … = some …`).  `Grouped`: the child list is
+    grouped by key and inside a key `ts ≤ t` switches once from false to true — what a table
+    sorted by (key ↑, ts ↓) gives (`pruning_hypothesis_of_sorted`); `pruned` is then "per key the
+    newest version not newer than `t`, unless it is a tombstone" (`pruned_is_newest_visible`). -/
+theorem pruning_refines {E K : Type} [DecidableEq K] (cfg : PruneCfg E K) (xs : List E)
+    (g : Grouped cfg xs) (n : Nat) (hn : xs.length + 2 ≤ n)
+    (ops : List (Op E)) (p : Pruning E K) (pos : Nat) (h : PRel cfg xs p pos)
+    (hops : ∀ pred, Op.seek pred ∈ ops → SeekPred cfg xs pred) :
+    Pruning.run cfg n p ops = some (Ref.run ⟨pruned cfg xs, pos⟩ ops) :=
+  Blue.Cursor.pruning_refines cfg xs g n hn ops p pos h hops
+
+theorem pruning_subst {E K : Type} [DecidableEq K] (cfg : PruneCfg E K) (n : Nat) {A : (E → Bool) → Prop}
+    {C D : Cur E} {c : C.σ} {d : D.σ} (h : BehEq A C c D d) (skip : Option K) (err : Bool) :
+    BehEq A (PruningC.cur C cfg n) ⟨c, skip, err⟩ (PruningC.cur D cfg n) ⟨d, skip, err⟩ :=
+  Blue.Cursor.pruning_subst cfg n h skip err
+
+theorem pruning_over {E K : Type} [DecidableEq K] (cfg : PruneCfg E K) (n : Nat) {A : (E → Bool) → Prop}
+    (xs : List E) (g : Grouped cfg xs) (hn : xs.length + 2 ≤ n)
+    (hA : ∀ pred, A pred → SeekPred cfg xs pred)
+    {C : Cur E} {c : C.σ} {q : Nat} (hc : BehEq A C c (RefCur E) ⟨xs, q⟩)
+    (skip : Option K) (pos : Nat) (hrel : PRel cfg xs ⟨⟨xs, q⟩, skip⟩ pos) :
+    BehEq A (PruningC.cur C cfg n) ⟨c, skip, false⟩ (RefCur E) ⟨pruned cfg xs, pos⟩ :=
+  Blue.Cursor.pruning_over cfg n xs g hn hA hc skip pos hrel
+
+theorem pruning_hypothesis_of_sorted {K : Type} [DecidableEq K] {klt : K → K → Bool} (st : StrictTotal klt)
+    {M : List (Blue.Spec.Ver K)} (hs : Blue.Spec.Sorted klt M) (t : Nat) (tomb : Blue.Spec.Ver K → Bool) :
+    Grouped (Blue.Spec.pcfg t tomb) M :=
+  Blue.Spec.grouped_of_sorted st hs t tomb
+
+theorem pruned_is_newest_visible {K : Type} [DecidableEq K] {klt : K → K → Bool} (st : StrictTotal klt)
+    {M : List (Blue.Spec.Ver K)} (hs : Blue.Spec.Sorted klt M) (t : Nat) (tomb : Blue.Spec.Ver K → Bool) :
+    pruned (Blue.Spec.pcfg t tomb) M = M.filter (Blue.Spec.isLive M t tomb) :=
+  Blue.Spec.pruned_eq_live st hs t tomb
+
+/-! ## lazy -/
+
+/-- **Lazy cursor = the cursor it opens**, although it opens the table only when a call needs it
+    and drops it whenever it runs off either end. -/
+theorem lazy_refines {E : Type} (xs : List E) (ops : List (Op E)) (pos : LPos E) (p : Nat)
+    (h : LRel xs pos p) : Lazy.run ⟨xs, pos⟩ ops = Ref.run ⟨xs, p⟩ ops :=
+  Blue.Cursor.lazy_refines xs ops pos p h
+
+theorem lazy_subst {E : Type} {A : (E → Bool) → Prop} {C D : Cur E} {c : C.σ} {d : D.σ}
+    (h : BehEq A C c D d) : BehEq A (LazyC.cur C) ⟨c, .first⟩ (LazyC.cur D) ⟨d, .first⟩ :=
+  Blue.Cursor.lazy_subst h
+
+theorem lazy_over {E : Type} {A : (E → Bool) → Prop} (xs : List E) {C : Cur E} {c : C.σ}
+    (hc : BehEq A C c (RefCur E) ⟨xs, 0⟩) :
+    BehEq A (LazyC.cur C) ⟨c, .first⟩ (RefCur E) ⟨xs, 0⟩ :=
+  Blue.Cursor.lazy_over xs hc
+
+/-! ## the code as it was: the three defects as theorems about the unrepaired operations -/
+
+/-- **D-19** `BoundsCursor::prev` without the end-bound re-check: window `[2, 3]` of `1..5`,
+    `seek(5); prev` shows 4 (outside the bounds); the reference and the repaired `prev` show 3.
+    On the code: `Included("2")..=Included("3")` over keys `1..5`, `seek("5"); prev` showed `4`. -/
+theorem bounds_prevOld_counterexample :
+    let b0 : Bounds Nat := Bounds.new cfg23 ⟨[1, 2, 3, 4, 5], 0⟩
+    let b1 := Bounds.seek cfg23 7 (fun e => decide (e ≥ 5)) b0
+    (Bounds.prevOld cfg23 b1).kv = some 4
+      ∧ (Ref.prev (Ref.seek (fun e => decide (e ≥ 5)) ⟨[2, 3], 0⟩)).kv = some 3
+      ∧ (Bounds.prev cfg23 7 b1).kv = some 3 :=
+  Blue.Cursor.bounds_prevOld_counterexample
+
+/-- **D-2** `ConcatenatingCursor::next` testing `value().is_none()`: children `[a, b=⊥, c] [d]`
+    walked forward show `a, d`; the repaired `next` (testing `key()`) shows `a, b=⊥, …`. -/
+theorem concat_nextOld_counterexample :
+    let m0 : Concat (Nat × Bool) := Concat.new [⟨[(1, false), (2, true), (3, false)], 0⟩, ⟨[(4, false)], 0⟩]
+    let m1 := Concat.nextOld tombOf m0
+    let m2 := Concat.nextOld tombOf m1
+    (m1.kv, m2.kv) = (some (1, false), some (4, false))
+      ∧ ((Concat.next m0).kv, (Concat.next (Concat.next m0)).kv) = (some (1, false), some (2, true)) :=
+  Blue.Cursor.concat_nextOld_counterexample
+
+/-- **D-18** `ConcatenatingCursor::seek` breaking off its binary search at `mid == left`:
+    children `[10] [20] [30]`, `seek(20)` positions at nothing; the completed search finds 20.
+    On the code: children `[ab] [b] [ffff]`, `seek(b)` showed nothing. -/
+theorem concat_seekOld_counterexample :
+    let m0 : Concat Nat := Concat.new [⟨[10], 0⟩, ⟨[20], 0⟩, ⟨[30], 0⟩]
+    (Concat.seekOld (fun e => decide (e ≥ 20)) m0).kv = none
+      ∧ (Concat.seek (fun e => decide (e ≥ 20)) m0).kv = some 20 :=
+  Blue.Cursor.concat_seekOld_counterexample
+
+/-! ## non-vacuity: the hypotheses are met by concrete non-trivial inputs -/
+
+def natLt (a b : Nat) : Bool := decide (a < b)
+
+theorem natLt_strictTotal : StrictTotal natLt where
+  irrefl := by intro a; simp [natLt]
+  trans := by intro a b c; simp only [natLt, decide_eq_true_eq]; omega
+  total := by intro a b h; simp only [natLt, decide_eq_true_eq]; omega
+
+/-- three children `[1, 4] [2, 5] [3]` (one merged list, owner tags 0 1 2 0 1) -/
+def demoM : List (Nat × Nat) := [(1, 0), (2, 1), (3, 2), (4, 0), (5, 1)]
+
+theorem demo_family : Family natLt demoM 3 where
+  sorted := by decide
+  owner := by decide
+
+/-- `merging_refines` applies to a program with a seek and reversals, and says something -/
+example :
+    Merging.run natLt (Merging.new natLt [⟨[1, 4], 0⟩, ⟨[2, 5], 0⟩, ⟨[3], 0⟩])
+        [.next, .next, .prev, .seek (fun e => decide (e ≥ 4)), .prev, .next, .last, .prev]
+      = [some 1, some 2, some 1, some 4, some 3, some 4, none, some 5] := by
+  have h := (merging_refines natLt_strictTotal demo_family [⟨[1, 4], 0⟩, ⟨[2, 5], 0⟩, ⟨[3], 0⟩]
+    (by decide) [.next, .next, .prev, .seek (fun e => decide (e ≥ 4)), .prev, .next, .last, .prev]
+    (by
+      intro pred hp
+      simp only [List.mem_cons, List.not_mem_nil, or_false, reduceCtorEq, false_or, Op.seek.injEq] at hp
+      subst hp
+      intro a b hab ha
+      simp only [natLt, decide_eq_true_eq] at *
+      omega)).2
+  rw [h]; decide
+
+/-- `concat_refines`: children `[1, 2] [] [4, 5]`, a seek into the third child and reversals -/
+example :
+    Concat.run (Concat.new [⟨[1, 2], 0⟩, ⟨[], 0⟩, ⟨[4, 5], 0⟩])
+        [.seek (fun e => decide (e ≥ 4)), .prev, .next, .next, .next, .prev]
+      = [some 4, some 2, some 4, some 5, none, some 5] := by
+  have h := concat_refines [⟨[1, 2], 0⟩, ⟨[], 0⟩, ⟨[4, 5], 0⟩] (by decide)
+    [.seek (fun e => decide (e ≥ 4)), .prev, .next, .next, .next, .prev]
+    (by
+      intro pred hp
+      simp only [List.mem_cons, List.not_mem_nil, or_false, reduceCtorEq, false_or, Op.seek.injEq] at hp
+      subst hp
+      intro i j ei ej hij hi hj hpi
+      have h1 : (i, ei) ∈ [(0, 1), (1, 2), (2, 4), (3, 5)] := by
+        rcases i with _ | _ | _ | _ | i <;> simp_all
+      have h2 : (j, ej) ∈ [(0, 1), (1, 2), (2, 4), (3, 5)] := by
+        rcases j with _ | _ | _ | _ | j <;> simp_all
+      simp only [List.mem_cons, Prod.mk.injEq, List.not_mem_nil, or_false] at h1 h2
+      simp only [decide_eq_true_eq] at *
+      omega)
+  rw [h]; decide
+
+/-- `BoundsOk` for every sorted table: a concrete one with an excluded start and an included end -/
+example : ∃ lo hi, BoundsOk (Blue.Spec.bcfg natLt (.excluded 2) (.included 4))
+    ([(1, 7), (2, 9), (2, 3), (3, 1), (4, 5), (4, 2), (6, 0)] : List (Blue.Spec.Ver Nat)) lo hi ∧ lo = 3 ∧ hi = 6 :=
+  ⟨_, _, bounds_hypothesis_of_sorted natLt_strictTotal (.excluded 2) (.included 4) _
+      (Blue.Spec.keysMono_of_sorted natLt_strictTotal (by unfold Blue.Spec.Sorted; decide)), by decide, by decide⟩
+
+/-- the state `new` leaves is related to position 0 (`BRel`), so `bounds_refines` starts there -/
+example (xs : List Nat) (lo hi : Nat) : BRel xs lo hi ⟨⟨xs, 0⟩, .beforeStart⟩ 0 :=
+  BRel.before 0 (by omega) (by omega)
+
+/-- `Grouped` and `PRel` are met by a sorted table with several versions per key and tombstones -/
+example : Grouped (Blue.Spec.pcfg 4 (fun e => e.2 == 3))
+    ([(1, 7), (1, 2), (2, 9), (2, 3), (2, 1), (3, 4)] : List (Blue.Spec.Ver Nat)) :=
+  pruning_hypothesis_of_sorted natLt_strictTotal (by unfold Blue.Spec.Sorted; decide) 4 _
+
+example {E K : Type} [DecidableEq K] (cfg : PruneCfg E K) (xs : List E) :
+    PRel cfg xs (Pruning.new ⟨xs, 0⟩) 0 := prel_new cfg xs ⟨xs, 0⟩ rfl
+
+/-- `LRel` holds of the state `LazyCursor::new` leaves -/
+example (xs : List Nat) : LRel xs .first 0 := LRel.first
+
+end Blue.Props.C11
+
+#print axioms Blue.Props.C11.merging_refines
+#print axioms Blue.Props.C11.merging_subst
+#print axioms Blue.Props.C11.merging_over
+#print axioms Blue.Props.C11.concat_refines
+#print axioms Blue.Props.C11.concat_subst
+#print axioms Blue.Props.C11.concat_over
+#print axioms Blue.Props.C11.bounds_refines
+#print axioms Blue.Props.C11.bounds_subst
+#print axioms Blue.Props.C11.bounds_over
+#print axioms Blue.Props.C11.bounds_hypothesis_of_sorted
+#print axioms Blue.Props.C11.bounds_window_is_interval
+#print axioms Blue.Props.C11.pruning_refines
+#print axioms Blue.Props.C11.pruning_subst
+#print axioms Blue.Props.C11.pruning_over
+#print axioms Blue.Props.C11.pruning_hypothesis_of_sorted
+#print axioms Blue.Props.C11.pruned_is_newest_visible
+#print axioms Blue.Props.C11.lazy_refines
+#print axioms Blue.Props.C11.lazy_subst
+#print axioms Blue.Props.C11.lazy_over
+#print axioms Blue.Props.C11.bounds_prevOld_counterexample
+#print axioms Blue.Props.C11.concat_nextOld_counterexample
+#print axioms Blue.Props.C11.concat_seekOld_counterexample
